@@ -591,6 +591,162 @@ async fn blocked_accept_case(seed: u64) -> Out {
 	out
 }
 
+/// Id provider driven by the harness: hands out the queued ids first (so that an id can be issued again on the same
+/// connection, as the library's own `NoopIdProvider` or a short `RandomStringIdProvider` do), then fresh numbers.
+#[derive(Debug, Clone, Default)]
+struct QueuedIds(Arc<std::sync::Mutex<std::collections::VecDeque<u64>>>, Arc<AtomicU64>);
+impl IdProvider for QueuedIds {
+	fn next_id(&self) -> SubscriptionId<'static> {
+		match self.0.lock().unwrap().pop_front() {
+			Some(x) => SubscriptionId::Num(x),
+			None => SubscriptionId::Num(1_000_000 + self.1.fetch_add(1, Ordering::SeqCst)),
+		}
+	}
+}
+
+/// Directed family: a subscription id is issued again while an earlier subscription that carried it (unsubscribed, or
+/// living on another connection) still has sinks in a handler's hands. Whatever happens to those old sinks afterwards,
+/// the new subscription stays active until it is ended itself: its sink does not report closed, unsubscribe answers
+/// true exactly once, the slot accounting is unchanged.
+async fn id_reuse_case(seed: u64) -> Out {
+	let mut out = Out::default();
+	let mut r = Rng::new(seed);
+	let reg = Registry::default();
+	let ids = QueuedIds::default();
+	let cfg = ServerConfig::builder().max_subscriptions_per_connection(3).max_connections(10).set_id_provider(ids.clone()).build();
+	let srv = MemServer::new(cfg, subctl::module(reg.clone()));
+	let (Ok(mut ws1), Ok(mut ws2)) = (srv.ws().await, srv.ws().await) else {
+		out.violations.push(("setup-failed/ws-connect".into(), "id-reuse scenario".into()));
+		return out;
+	};
+	macro_rules! bad {
+		($sig:expr, $($arg:tt)*) => { out.violations.push(($sig.to_string(), format!($($arg)*))) };
+	}
+	let raw = r.chance(1, 4);
+	let (sub, unsub) = if raw { ("sub_raw", "unsub_raw") } else { ("sub", "unsub") };
+	let x = 7 + r.below(1000);
+	let other_conn = r.chance(1, 3);
+	let mut next_call = 0u64;
+	macro_rules! call {
+		($ws:expr, $method:expr, $params:expr) => {{
+			next_call += 1;
+			let _ = $ws.send_text(&json!({"jsonrpc": "2.0", "id": next_call, "method": $method, "params": $params}).to_string()).await;
+			settle().await;
+			next_call
+		}};
+	}
+	macro_rules! response {
+		($ws:expr, $id:expr) => {{ $ws.drain_until_idle(Duration::from_millis(50)).await.iter().filter_map(|f| f.json()).find(|v| v["id"] == json!($id)) }};
+	}
+	// A
+	ids.0.lock().unwrap().push_back(x);
+	let _a_call = call!(ws1, sub, json!(["a"]));
+	let Some(ha) = reg.get("a") else {
+		bad!("refused-with-free-slot/subscribe", "id-reuse scenario: subscribe A did not reach its handler");
+		return out;
+	};
+	match ha.cmd(Cmd::Accept).await.map(|t| t.reply) {
+		Some(Reply::Accepted { sub_id }) if sub_id == json!(x) => {}
+		other => {
+			bad!("accept-failed/connection-open", "id-reuse scenario, A: {other:?}");
+			return out;
+		}
+	}
+	let a_clones = r.usize(3);
+	for _ in 0..a_clones {
+		let _ = ha.cmd(Cmd::CloneSink(0)).await;
+	}
+	out.admissions += 1;
+	// A is unsubscribed (unless the second subscription lives on another connection: then both are active at once)
+	if !other_conn {
+		let u = call!(ws1, unsub, json!([x]));
+		out.ops_checked += 1;
+		match response!(ws1, u) {
+			Some(v) if v["result"] == json!(true) => out.unsub_true += 1,
+			other => bad!("unsubscribe-result-wrong/active", "id-reuse scenario: unsubscribe of A answered {other:?}"),
+		}
+	}
+	// B gets the same id
+	ids.0.lock().unwrap().push_back(x);
+	let wsb = if other_conn { &mut ws2 } else { &mut ws1 };
+	let _b_call = call!(wsb, sub, json!(["b"]));
+	let Some(hb) = reg.get("b") else {
+		bad!("refused-with-free-slot/subscribe", "id-reuse scenario: subscribe B did not reach its handler (1 of 3 slots held)");
+		return out;
+	};
+	match hb.cmd(Cmd::Accept).await.map(|t| t.reply) {
+		Some(Reply::Accepted { sub_id }) if sub_id == json!(x) => {}
+		other => {
+			bad!("accept-failed/connection-open", "id-reuse scenario, B: {other:?}");
+			return out;
+		}
+	}
+	out.admissions += 1;
+	out.history.push(format!("A and B both carry id {x} (B on {} connection); A has {} sink(s)", if other_conn { "another" } else { "the same" }, 1 + a_clones));
+	// the old sinks go away, one by one or by the handler returning
+	let how = r.below(3);
+	match how {
+		0 => {
+			for k in 0..=a_clones {
+				let _ = ha.cmd(Cmd::DropSink(k)).await;
+				settle().await;
+			}
+		}
+		1 => {
+			let _ = ha.cmd_nowait(Cmd::Return(Ret::None));
+		}
+		_ => {
+			let _ = ha.cmd_nowait(Cmd::Return(Ret::Notif(json!("closing A"))));
+		}
+	}
+	settle().await;
+	settle().await;
+	// B must be untouched
+	out.ops_checked += 1;
+	let where_ = if other_conn { "same-id-on-another-connection" } else { "id-issued-again" };
+	match hb.cmd(Cmd::IsClosed(0)).await.map(|t| t.reply) {
+		Some(Reply::Closed(false)) => {}
+		other => bad!(format!("is-closed-wrong/reported-closed-while-active/{where_}"), "after the sinks of the earlier subscription with id {x} were dropped, the sink of the live one reports {other:?}"),
+	}
+	match hb.cmd(Cmd::Send(0, json!("still here"))).await.map(|t| t.reply) {
+		Some(Reply::Sent(Ok(()))) => {}
+		other => bad!(format!("send-failed-while-active/{where_}"), "{other:?}"),
+	}
+	for (want, class) in [(true, "active"), (false, "already-unsubscribed")] {
+		let wsb = if other_conn { &mut ws2 } else { &mut ws1 };
+		let u = call!(wsb, unsub, json!([x]));
+		out.ops_checked += 1;
+		let rp = response!(wsb, u);
+		if rp.as_ref().map(|v| v["result"].clone()) != Some(json!(want)) {
+			bad!(format!("unsubscribe-result-wrong/{class}/{where_}"), "unsubscribe of the live subscription with the re-issued id {x} answered {rp:?}, model {want}");
+		} else if want {
+			out.unsub_true += 1;
+		} else {
+			out.unsub_false += 1;
+		}
+	}
+	let _ = hb.cmd_nowait(Cmd::Return(Ret::None));
+	let _ = ha.cmd_nowait(Cmd::Return(Ret::None));
+	settle().await;
+	// slot accounting: the connection can take its full cap again
+	let wsb = if other_conn { &mut ws2 } else { &mut ws1 };
+	for k in 0..3 {
+		let tag = format!("fill{k}");
+		let c = call!(wsb, sub, json!([tag]));
+		match reg.get(&tag) {
+			Some(h) => {
+				let _ = h.cmd(Cmd::Accept).await;
+			}
+			None => {
+				let rp = response!(wsb, c);
+				bad!("refused-with-free-slot/subscribe", "id-reuse scenario: after both subscriptions ended, subscribe {k} of 3 was not admitted: {rp:?}");
+				break;
+			}
+		}
+	}
+	out
+}
+
 /// Stress (real threads): many subscriptions on several connections end at the same instant (their handlers return
 /// concurrently on 8 workers); afterwards every id must be inactive (unsubscribe false) and every slot must be free.
 async fn mass_ending_case(seed: u64, per_conn: usize) -> (usize, Vec<(String, String)>) {
@@ -916,6 +1072,20 @@ fn main() {
 		let w: Value = serde_json::from_str(&std::fs::read_to_string(path).expect("replay")).expect("json");
 		let want_ops = w["witness"]["ops"].clone();
 		let seed = w["witness"]["seed"].as_u64().unwrap_or(0);
+		// the directed families are replayed from their seed
+		if let Some(sc) = w["witness"]["scenario"].as_str() {
+			let o = if sc.starts_with("a subscription id is issued again") { block_on_virtual(id_reuse_case(seed)) } else { block_on_virtual(blocked_accept_case(seed)) };
+			for h in &o.history {
+				println!("  {h}");
+			}
+			println!("violations: {:?}", o.violations);
+			ev.eval();
+			ev.nontrivial(&("replay", seed));
+			ev.nontrivial(&("replay-2", seed));
+			for (sig, d) in o.violations {
+				violations.push(Violation::new(sig, d, json!({"scenario": sc, "seed": seed, "history": o.history})));
+			}
+		}
 		let base = gen_spec(seed);
 		let mut cands = vec![base.clone()];
 		cands.extend(with_drops(&base));
@@ -955,6 +1125,25 @@ fn main() {
 			}
 			for (sig, d) in o.violations {
 				violations.push(Violation::new(sig, d, json!({"scenario": "accept() blocked by back-pressure while the peer unsubscribes the pending id", "seed": s, "history": o.history})));
+			}
+		}
+	}
+	if !replay {
+		let n = ctx.tier.pick(300u64, 20_000);
+		let seed = ctx.seed;
+		let res = run_parallel((0..n).collect(), |_, i| {
+			let s = Rng::fork(seed, 62_000_000 + i).next_u64();
+			(s, block_on_virtual(id_reuse_case(s)))
+		});
+		for (s, o) in res {
+			ev.eval();
+			ev.count("cases_id_issued_again", 1);
+			ev.count("operations_checked", o.ops_checked as u64);
+			if o.admissions > 1 {
+				ev.nontrivial(&("id-reuse", s));
+			}
+			for (sig, d) in o.violations {
+				violations.push(Violation::new(sig, d, json!({"scenario": "a subscription id is issued again while sinks of an earlier subscription with that id are still held", "seed": s, "history": o.history})));
 			}
 		}
 	}
